@@ -88,15 +88,15 @@ Proof. exact expected_record_closed_lemma. Qed.
    the cell of row i in the column of that symbol (sym_index = as_index), every row has K
    columns and every column not named in the header holds zero. *)
 Theorem matrix_cells :
-  forall (al : alpha) (po : bool) (sep syms : str) (rows : list prow) (idx : list nat),
-  item_ok al (IMatrix po sep syms rows) = true -> sym_indices al syms = Some idx ->
-  exists m, item_matrix al (IMatrix po sep syms rows) = Some m /\ length m = length rows /\
+  forall (al : alpha) (po : bool) (syms : list (str * byte)) (rows : list prow) (idx : list nat),
+  item_ok al (IMatrix po syms rows) = true -> sym_indices al (sym_letters syms) = Some idx ->
+  exists m, item_matrix al (IMatrix po syms rows) = Some m /\ length m = length rows /\
   forall i, i < length rows ->
     let row := nth i m [] in
-    let toks := pr_toks (nth i rows (mkRow [] [] [])) in
+    let toks := row_toks (nth i rows (mkRow [] [] [])) in
     length row = alpha_k al /\
     (forall j, j < length syms ->
-       sym_index al (nth j syms x00) = Some (nth j idx 0) /\
+       sym_index al (nth j (sym_letters syms) x00) = Some (nth j idx 0) /\
        nth (nth j idx 0) row CZero = CTok (nth j toks [])) /\
     (forall k, ~ In k idx -> nth k row CZero = CZero).
 Proof. exact matrix_item_cells. Qed.
@@ -136,15 +136,15 @@ Proof. split; vm_compute; reflexivity. Qed.
 
 (* non-vacuity of the round trip: a well-formed file with a VV header and three records: the
    first with its lines in an unusual order, a BF line, a repeated ID line (the last wins) and
-   a matrix whose header is spelled PO, names the symbols in the order T A G, separates the
-   columns with blank+tab and has a consensus letter after the first row; the third empty
+   a matrix whose header is spelled PO, names the symbols in the order T A G, has different
+   blanks/tabs before every symbol and count and a consensus letter after the first row; the third empty
    ("//" only); CRLF, no final newline *)
 Local Open Scope byte_scope.
 Definition ex_recs : list prec :=
   [ [ IField FNA [" "] ["n";" ";"1"]; IXX; ISkip KBF [" ";"f";"a";"c";"t";"o";"r"];
-      IMatrix true [" "; x09] ["T";"A";"G"]
-        [ mkRow ["0";"1"] [["1"]; ["2";".";"5"]; ["0"]] [" ";" ";"W"];
-          mkRow ["0";"2"] [["7"]; ["1";"e";"2"]; ["3"]] [] ];
+      IMatrix true [([" "; x09], "T"); ([" "], "A"); ([" "; " "; " "], "G")]
+        [ mkRow ["0";"1"] [([" "; " "], ["1"]); ([" "], ["2";".";"5"]); ([" "; " "; " "], ["0"])] [" ";" ";"W"];
+          mkRow ["0";"2"] [([x09], ["7"]); ([" "], ["1";"e";"2"]); ([" "; " "; " "], ["3"])] [] ];
       IField FID [x09; " "] ["o";"l";"d"]; IXX; IXX; IField FID [] ["M";"1"];
       IRef ["1";"2"] (Some ["R";"E";"7"]) [RX ["9";"9"]; RA [" ";"D";"o";"e";" ";"J";"."]; RT ["t";" ";"1"]; RL ["l"]];
       IRef ["2"] None [] ];
